@@ -101,7 +101,7 @@ def _accuracy(draw):
             atol = tol * draw(st.sampled_from([1.0, 1e3]))             # atol >> rtol with |y| >> 1
             tol = tol
     return dict(part="accuracy", method=method, dtype="float64", prob=prob, y0=y0, t0=t0, tf=tf, dt=L * dtfrac * draw(st.sampled_from([1.0, -1.0])),
-                rtol=tol, atol=atol, dense=False, snap=snap)
+                rtol=tol, atol=atol, dense=False, snap=snap, tol_route=draw(st.sampled_from(["constructor", "constructor", "setters"])))
 
 
 @st.composite
@@ -203,7 +203,13 @@ def _amp(f, case, T):
 
 
 def _run_accuracy(case, record=True):
-    a, f, y0 = traj.make_system(case)
+    if case.get("tol_route") == "setters":
+        # the tolerances reach the system through its rtol / atol properties, after the method was selected
+        a, f, y0 = traj.make_system(dict(case, rtol=1e-3, atol=1e-3))
+        a.rtol = case["rtol"]
+        a.atol = case["atol"]
+    else:
+        a, f, y0 = traj.make_system(case)
     rec = Recorder(a.integrator) if record else None
     err = traj.run_integrate(a, step_limit=4000)
     return a, f, y0, rec, err
@@ -226,7 +232,7 @@ def _check_accuracy(case):
     fam = M.family(M.get(method))
     implicit = M.is_implicit(method)
     attrs = dict(method=method, family=fam)
-    labels = ["method:" + method, "prob:" + case["prob"]["kind"]] + traj.span_class(case["t0"], case["tf"])
+    labels = ["method:" + method, "prob:" + case["prob"]["kind"], "tolerances_via:" + case.get("tol_route", "constructor")] + traj.span_class(case["t0"], case["tf"])
     T = case["tf"] - case["t0"]
     if case["prob"]["kind"] != "lin":
         fchk = PR.build(case["prob"])
